@@ -265,6 +265,142 @@ func clientInbound(r *h.Run, idx int) {
 	r.Eval()
 }
 
+// D2. the same through a Service: the scripted broker starts sending a backlog
+// the moment it has accepted the connection (a resumed session) and keeps
+// streaming; OnlineCallback and MessageCallback take their time. Messages of
+// one QoS reach MessageCallback in arrival order, one at a time.
+func serviceInbound(r *h.Run, idx int) {
+	if r.TooMany() {
+		return
+	}
+	rng := r.Rand(fmt.Sprintf("c15-svcin-%d", idx))
+	backlog := 5 + rng.Intn(40)
+	stream := 20 + rng.Intn(80)
+	onlineDelay := time.Duration(rng.Intn(6)) * time.Millisecond
+	cbDelay := time.Duration(rng.Intn(300)) * time.Microsecond
+	r.Journal("C15 service inbound #%d backlog=%d stream=%d online=%v cb=%v", idx, backlog, stream, onlineDelay, cbDelay)
+	srv := ch.NewServer()
+	seq := [2]int{}
+	var smu sync.Mutex
+	next := func(i int) *packet.Publish {
+		smu.Lock()
+		defer smu.Unlock()
+		q := packet.QOS((i + i/3) % 2)
+		seq[q]++
+		p := &packet.Publish{Message: packet.Message{Topic: "in/x", QOS: q, Payload: []byte(fmt.Sprintf("q%d|%05d", q, seq[q]))}}
+		if q > 0 {
+			p.ID = packet.ID(i + 1)
+		}
+		return p
+	}
+	srv.Prep = func(c *ch.Conn) {
+		c.Peer.AutoReply = ch.Broker(true, func(in packet.Generic, def []packet.Generic) []packet.Generic {
+			if _, ok := in.(*packet.Connect); ok {
+				out := def
+				for i := 0; i < backlog; i++ {
+					out = append(out, next(i))
+				}
+				return out
+			}
+			return def
+		})
+	}
+	var mu sync.Mutex
+	var got []string
+	inCallback := 0
+	overlapped := false
+	s := client.NewService(400)
+	s.OnlineCallback = func(bool) { time.Sleep(onlineDelay) }
+	s.MessageCallback = func(m *packet.Message) error {
+		mu.Lock()
+		inCallback++
+		if inCallback > 1 {
+			overlapped = true
+		}
+		mu.Unlock()
+		time.Sleep(cbDelay)
+		mu.Lock()
+		got = append(got, string(m.Payload))
+		inCallback--
+		mu.Unlock()
+		return nil
+	}
+	s.Start(ch.Config(srv, "c15-svcin", false))
+	conn := srv.WaitConn(1, bh.Watchdog)
+	if conn == nil {
+		r.Inconclusive("service never dialled")
+		return
+	}
+	// the stream starts when the whole backlog is on the wire (sequence numbers
+	// are handed out in wire order)
+	sentBacklog := func() int {
+		n := 0
+		for _, e := range srv.Log.Events() {
+			if e.Who == conn.Peer.Name && e.Kind == "ssend" {
+				if _, ok := e.Pkt.(*packet.Publish); ok {
+					n++
+				}
+			}
+		}
+		return n
+	}
+	for w := 0; sentBacklog() < backlog; w++ {
+		if w > 40000 {
+			r.Inconclusive(fmt.Sprintf("service inbound #%d: the scripted broker never got the CONNECT", idx))
+			go s.Stop(true)
+			return
+		}
+		time.Sleep(500 * time.Microsecond)
+	}
+	for i := backlog; i < backlog+stream; i++ {
+		_ = conn.Peer.Send(next(i))
+		if i%7 == 0 {
+			time.Sleep(100 * time.Microsecond)
+		}
+	}
+	total := backlog + stream
+	deadline := time.Now().Add(bh.Watchdog)
+	for {
+		mu.Lock()
+		l := len(got)
+		mu.Unlock()
+		if l >= total {
+			break
+		}
+		if time.Now().After(deadline) {
+			r.Inconclusive(fmt.Sprintf("service inbound #%d: %d of %d messages reached MessageCallback within the watchdog", idx, l, total))
+			go s.Stop(true)
+			return
+		}
+		time.Sleep(300 * time.Microsecond)
+	}
+	last := map[string]int{}
+	mu.Lock()
+	for _, pl := range got {
+		parts := strings.Split(pl, "|")
+		var k int
+		fmt.Sscanf(parts[1], "%d", &k)
+		if k != last[parts[0]]+1 {
+			r.Violation("service/message-callback-order", fmt.Sprintf("service inbound #%d (backlog %d right after CONNACK, OnlineCallback takes %v, MessageCallback %v): MessageCallback received %s after #%d of that QoS; arrival order was increasing", idx, backlog, onlineDelay, cbDelay, pl, last[parts[0]]), map[string]interface{}{"callback_order": got})
+			break
+		}
+		last[parts[0]] = k
+	}
+	if overlapped {
+		r.Count("service_message_callbacks_overlapped", 1)
+	}
+	mu.Unlock()
+	stopped := make(chan struct{})
+	go func() { s.Stop(true); close(stopped) }()
+	select {
+	case <-stopped:
+	case <-time.After(bh.Watchdog):
+		r.Inconclusive("service Stop did not return")
+	}
+	r.NonTrivial(fmt.Sprintf("svcin:%d", idx))
+	r.Eval()
+}
+
 // E. service commands are executed first-in first-out
 func serviceOrder(r *h.Run, idx int) {
 	if r.TooMany() {
@@ -476,6 +612,9 @@ func clientPart(r *h.Run) {
 	nd := r.Pick(100, 2000)
 	h.Parallel(nd, 16, func(i int) { clientInbound(r, i) })
 	r.Count("client_inbound_runs", int64(nd))
+	ni := r.Pick(60, 1200)
+	h.Parallel(ni, 8, func(i int) { serviceInbound(r, i) })
+	r.Count("service_inbound_runs", int64(ni))
 	ne := r.Pick(80, 1500)
 	h.Parallel(ne, 8, func(i int) { serviceOrder(r, i) })
 	r.Count("service_order_runs", int64(ne))
